@@ -105,5 +105,10 @@ def run(ctx):
         return None
     core.run_stream(ctx, core.Stream("two numeric positions varied together: versions x versions, thresholds x thresholds, threshold x gpg flag (%d numbers incl. 10^400, 1e308, 2^53, NaN, +-Infinity, bools)" % len(NUMS),
                                      pcases, rel_pair, oracle, nontrivial=lambda c, i, m: True))
+    # environments that turn diagnostics into exceptions: warnings escalated to errors (python -W error), an ASCII-only standard output
+    sub = [c for c in cases if c["meta"]["fn"].startswith("verify_")]
+    sub = sub[:: max(1, len(sub) // 1500)] + pcases[::7]
+    for env, what in (({"PYTHONWARNINGS": "error"}, "warnings escalated to errors (PYTHONWARNINGS=error)"), ({"PYTHONIOENCODING": "ascii:strict"}, "ASCII-only standard output")):
+        core.run_stream(ctx, core.Stream("verifier cases under %s" % what, sub, rel_pair, oracle, env=env))
     ctx.assumptions = ["values with user-defined dunder methods, RecursionError beyond the depth bound and MemoryError are outside the universe",
                        "struct.error needs OpenPGP headers of 4 GiB or more (C13_struct_error_needs_4GiB); not generated"]
